@@ -90,7 +90,7 @@ def run_inspace(case):
     return res
 
 
-BOX_FAULTS = ["len-", "len+", "dim", "low", "high", "nan", "inf", "-inf", "str", "none", "list-of-str"]
+BOX_FAULTS = ["len-", "len+", "dim", "low", "high", "nan", "inf", "-inf", "str", "none", "list-of-str", "zeros", "zeros-list"]
 DISCRETE_FAULTS = ["n", "n+k", "-1", "1.5", "nan", "str", "none", "array"]
 
 
@@ -98,6 +98,15 @@ DISCRETE_FAULTS = ["n", "n+k", "-1", "1.5", "nan", "str", "none", "array"]
 def malformed_cases(draw, tier="quick"):
     c = draw(inspace_cases(tier))
     nsteps = len(c["actions"])
+    if c["space"][0] == "box" and c["space_kind"] == "box" and c["cash_pos"] is None and draw(st.sampled_from([False, True])):
+        # a continuous space whose bounds exclude zero (minimum weight per contract): no delay (the null action is not in it)
+        n = len(c["contracts"])
+        lo, hi = 0.125, 0.75
+        c["space"] = ["box", lo, hi, True]
+        c["delay"] = 0
+        c["actions"] = [[draw(st.sampled_from([lo, hi, 0.25, 0.5])) / 1.0 for _ in range(n)] for _ in c["actions"]]
+        c["second_episode"] = False
+        c["positive_low"] = True
     c["inject_at"] = draw(st.one_of(st.integers(0, max(0, nsteps - 1 - c["delay"])), st.integers(0, nsteps - 1)))
     c["fault"] = draw(st.sampled_from(BOX_FAULTS if c["space"][0] == "box" else DISCRETE_FAULTS))
     c["fault_idx"] = draw(st.integers(0, 5))
@@ -133,6 +142,11 @@ def malformed_action(case):
         if f == "-inf":
             base[idx] = -np.inf
             return base
+        if f in ("zeros", "zeros-list"):
+            if lo <= 0 <= hi:
+                base[idx] = hi + 1.0        # zero is in the space: fall back to an out-of-bounds entry
+                return base
+            return np.zeros(n) if f == "zeros" else [0.0] * n
         if f == "str":
             return "buy everything"
         if f == "list-of-str":
@@ -218,6 +232,8 @@ def run_malformed(case):
     res.tag("fault-" + case["fault"], case["space_kind"], "delay=%d" % d)
     if raised_at is not None and raised_at > jm:
         res.tag("rejected-when-due")
+    if case.get("positive_low"):
+        res.tag("bounds-exclude-zero")
     return res
 
 
